@@ -89,6 +89,35 @@ def method_rules(pfx):
     ]
 
 
+class AutoUmap(Rule):
+    """Type-directed lowering of `auto NAME = <initialiser>;` for the unordered_map member, whatever the variable is called:
+    items.emplace(...) -> umap_emplace_ret;  items.find/begin/end(...), items.emplace(...).first, RET.first (RET an emplace
+    result declared before) -> umap_iter.  Any other `auto` is left alone (and then stops the extraction as C++ residue)."""
+
+    def __init__(self):
+        self.pat = 'auto -> umap_iter / umap_emplace_ret (type-directed)'
+
+    def apply(self, text, where=''):
+        rets = set()
+
+        def ty(mo):
+            name, init = mo.group(1), mo.group(2)
+            flat = ' '.join(init.split())
+            t = None
+            if re.search(r'\bitems\s*\.\s*emplace\s*\(', flat):
+                t = 'umap_iter' if re.search(r'\)\s*\.\s*first$', flat) else 'umap_emplace_ret'
+            elif re.search(r'\bitems\s*\.\s*(find|begin|end)\s*\(', flat):
+                t = 'umap_iter'
+            elif re.fullmatch(r'(\w+)\s*\.\s*first', flat) and flat.split('.')[0].strip() in rets:
+                t = 'umap_iter'
+            if t is None:
+                return mo.group(0)
+            if t == 'umap_emplace_ret':
+                rets.add(name)
+            return '%s %s = %s;' % (t, name, init)
+        return re.sub(r'\bauto\s+(\w+)\s*=\s*([^;]*);', ty, text)
+
+
 class LowerTryCatch(Rule):
     """Structural lowering of the single try statement of a function whose handler catches one std class by const reference."""
 
@@ -274,11 +303,11 @@ def map_units(ctx, src, with_insert_const):
     F(r'size_t item_size\(const KeyT& k\) const', 'size_t LRUMap_item_size(const LRUMap* self, KeyT k)',
       [Rule(r'return\s+self->items\.at\(k\)\.(.*?);', r'const Item* item = self->items.at(k); return item->\1;', count=1, regex=True)],
       ret_zero='0', may_throw=['umap_at'])
-    IT = [Rule(r'auto\s+item_it\s*=', 'umap_iter item_it =', count=1, regex=True)]
+    IT = [AutoUmap()]
     INS = IT + ref_rules('i', 'auto')
     F(r'bool insert\(KeyT&& k, ValueT&& v, size_t size = [^,)]+\)', 'bool LRUMap_insert(LRUMap* self, KeyT k, ValueT v, size_t size)', INS)
     F(r'bool emplace\(KeyT&& k, ValueT&& v, size_t size = [^,)]+\)', 'bool LRUMap_emplace(LRUMap* self, KeyT k, ValueT v, size_t size)',
-      [Rule(r'auto\s+emplace_ret\s*=', 'umap_emplace_ret emplace_ret =', count=1, regex=True)] + ref_rules('i', 'auto'))
+      IT + ref_rules('i', 'auto'))
     F(r'bool erase\(const KeyT& k\)', 'bool LRUMap_erase(LRUMap* self, KeyT k)',
       IT + ref_rules('item', 'Item') + [Rule(r'items\.erase\(', 'items.erase_it(', count='+', regex=True)])
     F(r'void clear\(\)', 'void LRUMap_clear(LRUMap* self)')
